@@ -210,6 +210,144 @@ theorem liveTicks_prefix_runTick (cfg : Fsm.Cfg) :
         · exact List.prefix_cons_inj _ |>.mpr (ih s')
         · simp [List.prefix_cons_inj]
 
+/-! ### the recorded run read back: the link between `okSteps` and the trace, frames on the wire -/
+
+/-- the transitions READ OFF a recorded run - inputs and tick results side by side, the state before each
+step taken from the trace itself (the state the previous `tick` left); stops at the first entry that is
+not a frame answered `Ok`.  Nothing is recomputed: no `tickStep`, no `handleInput`. -/
+def traceSteps : Fsm.St → List Fsm.TickInput → List Fsm.TickResult →
+    List (Fsm.St × Fsm.Input × Fsm.St × List Fsm.Out)
+  | s, t :: ts, r :: rs =>
+    match t, r with
+    | .frame i, .res (.next s' true outs) => (s, i, s', outs) :: traceSteps s' ts rs
+    | _, _ => []
+  | _, _, _ => []
+
+theorem traceSteps_nil_right (s : Fsm.St) (tis : List Fsm.TickInput) : traceSteps s tis [] = [] := by
+  cases tis <;> simp [traceSteps]
+
+/-- LINK LEMMA: on a trace that is `liveTicks` of its inputs, the transitions read off the trace are
+`okSteps` (the re-computation) -/
+theorem traceSteps_liveTicks (cfg : Fsm.Cfg) :
+    ∀ (tis : List Fsm.TickInput) (s : Fsm.St), traceSteps s tis (liveTicks cfg s tis) = okSteps cfg s tis := by
+  intro tis
+  induction tis with
+  | nil => intro s; simp [traceSteps, okSteps]
+  | cons t rest ih =>
+    intro s
+    simp only [liveTicks, okSteps]
+    cases t with
+    | frame i =>
+      cases hr : Fsm.tickStep cfg s (.frame i) with
+      | noConn => simp [traceSteps]
+      | res r =>
+        cases r with
+        | todo => simp [traceSteps]
+        | panic => simp [traceSteps]
+        | next s' ok outs =>
+          cases ok with
+          | false => simp [traceSteps]
+          | true =>
+            simp only [traceSteps, goesOn, after]
+            by_cases hc : s'.conn = true
+            · simp [hc, ih]
+            · simp [hc, traceSteps_nil_right]
+    | _ => simp [traceSteps]
+
+/-- every frame of a recorded run stands on the wire as a complete, well-delimited message that the decoder
+IN FORCE WHEN IT WAS READ accepted: the connection's configuration is threaded through `w.upd`, with the
+session states taken from the trace (`k`, `s` = configuration / state before the first frame) -/
+def FramesDecoded (w : Wire μ κ) : κ → Fsm.St → List (Frame μ) → List Fsm.TickResult → Prop
+  | _, _, [], _ => True
+  | _, _, _ :: _, [] => False
+  | k, s, f :: fs, r :: rs =>
+    (19 ≤ f.2.length ∧ lenField f.2 = f.2.length ∧ w.dec k f.2 = .ok f.1) ∧
+    FramesDecoded w (w.upd k s f (after r s)) (after r s) fs rs
+
+/-- the connection's configuration after the frames of a recorded run -/
+def kAlong (w : Wire μ κ) : κ → Fsm.St → List (Frame μ) → List Fsm.TickResult → κ
+  | k, _, [], _ => k
+  | k, _, _ :: _, [] => k
+  | k, s, f :: fs, r :: rs => kAlong w (w.upd k s f (after r s)) (after r s) fs rs
+
+/-- how a run ends, `rest` = the octets after the last frame handed to `handle_msg`: (1) `read_frame` waits
+for more (`rest` is buffered and is no complete frame under the configuration now in force), (2) `rest`
+is refused (bad length / marker / decoder error: one more tick, the failed read), (3) the session stopped
+on its last frame (`Err`, or the connection was released): `rest` is never looked at.  In every case the
+inputs `tick` processed are `w.inp` of the frames, in order. -/
+def WireEnd (w : Wire μ κ) (r : Res μ κ) (rest : Bytes) : Prop :=
+  (r.live = some rest ∧ parseFrame (w.dec r.k) rest = .ok none ∧
+    r.inputs = r.frames.map (fun f => Fsm.TickInput.frame (w.inp f))) ∨
+  (r.live = none ∧ parseFrame (w.dec r.k) rest = .err ∧
+    r.inputs = r.frames.map (fun f => Fsm.TickInput.frame (w.inp f)) ++ [.readErr]) ∨
+  (r.live = none ∧ r.frames ≠ [] ∧ r.inputs = r.frames.map (fun f => Fsm.TickInput.frame (w.inp f)))
+
+/-- `pump` hands over exactly the frames that stand on the wire, each once, in order, each decoded under
+the configuration in force when it is read -/
+theorem pump_wire (w : Wire μ κ) (cfg : Fsm.Cfg) (hdec : ∀ k b, w.dec k b ≠ .panic) :
+    ∀ (n : Nat) (buf : Bytes) (s : Fsm.St) (k : κ), buf.length ≤ n →
+      FramesDecoded w k s (pump w cfg s k buf).frames (pump w cfg s k buf).trace ∧
+      (pump w cfg s k buf).k = kAlong w k s (pump w cfg s k buf).frames (pump w cfg s k buf).trace ∧
+      ∃ rest, buf = ((pump w cfg s k buf).frames.map (·.2)).flatten ++ rest ∧
+        WireEnd w (pump w cfg s k buf) rest := by
+  intro n
+  induction n with
+  | zero =>
+    intro buf s k hb
+    have : parseFrame (w.dec k) buf = .ok none := by unfold parseFrame; simp; omega
+    rw [pump_none this]
+    exact ⟨trivial, rfl, buf, by simp, Or.inl ⟨rfl, this, rfl⟩⟩
+  | succ n ih =>
+    intro buf s k hb
+    cases hp : parseFrame (w.dec k) buf with
+    | err =>
+      rw [pump_err hp]
+      exact ⟨trivial, rfl, buf, by simp, Or.inr (Or.inl ⟨rfl, hp, rfl⟩)⟩
+    | panic => exact absurd hp (parseFrame_ne_panic' (w.dec k) (hdec k) buf)
+    | ok o =>
+      cases o with
+      | none =>
+        rw [pump_none hp]
+        exact ⟨trivial, rfl, buf, by simp, Or.inl ⟨rfl, hp, rfl⟩⟩
+      | some fr =>
+        obtain ⟨⟨m, frame⟩, rest⟩ := fr
+        have hlt := parseFrame_rest_lt hp
+        obtain ⟨h19, hbuf, hlen, hd⟩ := parseFrame_some hp
+        have hwf : 19 ≤ frame.length ∧ lenField frame = frame.length ∧ w.dec k frame = .ok m := by
+          refine ⟨h19, ?_, hd⟩
+          rw [← hlen, hbuf, lenField_append frame rest (by omega)]
+        rw [pump_some hp]
+        split
+        · obtain ⟨hF, hK, rest', hb', hE⟩ := ih rest (after (Fsm.tickStep cfg s (.frame (w.inp (m, frame)))) s)
+            (w.upd k s (m, frame) (after (Fsm.tickStep cfg s (.frame (w.inp (m, frame)))) s)) (by omega)
+          refine ⟨⟨hwf, hF⟩, hK, rest', ?_, ?_⟩
+          · simp only [Res.pre, List.map_cons, List.flatten_cons, List.append_assoc]
+            rw [← hb']; exact hbuf
+          · rcases hE with ⟨a, b, c⟩ | ⟨a, b, c⟩ | ⟨a, b, c⟩
+            · exact Or.inl ⟨a, b, by simp [Res.pre, c]⟩
+            · exact Or.inr (Or.inl ⟨a, b, by simp [Res.pre, c]⟩)
+            · exact Or.inr (Or.inr ⟨a, by simp [Res.pre], by simp [Res.pre, c]⟩)
+        · exact ⟨⟨hwf, trivial⟩, rfl, rest, by simpa using hbuf, Or.inr (Or.inr ⟨rfl, by simp, rfl⟩)⟩
+
+/-- forgetting which configuration was in force: every frame of a recorded run is a complete message that
+some configuration met along the run decoded to the value handed over -/
+theorem FramesDecoded_mem (w : Wire μ κ) :
+    ∀ (fs : List (Frame μ)) (rs : List Fsm.TickResult) (k : κ) (s : Fsm.St), FramesDecoded w k s fs rs →
+      ∀ f ∈ fs, ∃ k', 19 ≤ f.2.length ∧ lenField f.2 = f.2.length ∧ w.dec k' f.2 = .ok f.1 := by
+  intro fs
+  induction fs with
+  | nil => intro rs k s _ f hf; simp at hf
+  | cons g fs ih =>
+    intro rs k s h f hf
+    cases rs with
+    | nil => exact absurd h (by simp [FramesDecoded])
+    | cons r rs =>
+      simp only [FramesDecoded] at h
+      simp only [List.mem_cons] at hf
+      rcases hf with rfl | hf
+      · exact ⟨k, h.1⟩
+      · exact ih rs _ _ h.2 f hf
+
 /-! ### the concrete wire -/
 
 open Rc.SessionDecode
@@ -245,5 +383,133 @@ theorem sessionWire_ne_panic (k : Upd.Cfg) (f : Bytes) : sessionWire.dec k f ≠
       | panic => exact absurd e hd
       | err => simp
       | ok p => obtain ⟨c, s⟩ := p; simp
+
+/-- the BGP message type (RFC 4271 4.1) an FSM input stands for; 0 for the inputs that are no frame -/
+def typeOfInput : Fsm.Input → Nat
+  | .msgOpen _ => 1 | .msgUpdate _ => 2 | .msgNotification _ _ => 3 | .msgKeepalive => 4
+  | .msgRouteRefresh => 5 | _ => 0
+
+/-- the type `Message::from_octets` dispatched on -/
+def typeOfMsg : BgpMsg → Nat
+  | .open _ => 1 | .update _ => 2 | .notification _ => 3 | .keepalive _ => 4 | .routeRefresh _ => 5
+
+/-- what `Message::from_octets` returns is decided by the header: marker, 19 octets, and the variant is
+the one of the type octet (offset 18), produced by that type's decoder -/
+theorem msgFromOctets_type {k : Upd.Cfg} {f : Bytes} {m : BgpMsg} (h : msgFromOctets k f = .ok m) :
+    19 ≤ f.length ∧ f.take 16 = Open.marker ∧ (f.getD 18 0).toNat = typeOfMsg m ∧
+    (∀ u, m = .update u → Upd.parseUpdate k f = .ok u) ∧
+    (∀ o, m = .open o → Open.fromOctets f = .ok o) := by
+  have hs := headerParse_spec f
+  by_cases hh : 19 ≤ f.length ∧ f.take 16 = Open.marker
+  · obtain ⟨len, r, he⟩ := hs.1 hh
+    refine ⟨hh.1, hh.2, ?_⟩
+    unfold msgFromOctets at h
+    rw [he] at h
+    simp only at h
+    split at h
+    all_goals (first | (simp at h; done) | skip)
+    all_goals (split at h <;> simp at h <;> subst h <;> simp_all [typeOfMsg])
+  · rw [msgFromOctets, hs.2 hh] at h; simp at h
+
+/-- the input the concrete wire gives for a frame carries the frame's type octet -/
+theorem sessionWire_dec_type {k : Upd.Cfg} {f : Bytes} {i : Fsm.Input} (h : sessionWire.dec k f = .ok i) :
+    19 ≤ f.length ∧ f.take 16 = Open.marker ∧ (f.getD 18 0).toNat = typeOfInput i := by
+  simp only [sessionWire] at h
+  cases hm : msgFromOctets k f with
+  | panic => simp [hm] at h
+  | err => simp [hm] at h
+  | ok m =>
+    obtain ⟨h1, h2, h3, _, _⟩ := msgFromOctets_type hm
+    refine ⟨h1, h2, ?_⟩
+    rw [h3]
+    simp only [hm] at h
+    cases m with
+    | update u => simp [toInput] at h; subst h; rfl
+    | keepalive x => simp [toInput] at h; subst h; rfl
+    | routeRefresh x => simp [toInput] at h; subst h; rfl
+    | «open» o =>
+      simp only [toInput] at h
+      split at h <;> try (simp at h; done)
+      split at h <;> try (simp at h; done)
+      split at h <;> simp at h <;> subst h <;> rfl
+    | notification x =>
+      simp only [toInput] at h
+      split at h <;> simp at h <;> subst h <;> rfl
+
+/-- **which frames the concrete wire calls an UPDATE**: exactly those with a good marker whose type octet
+is 2 and which `UpdateMessage::from_octets` accepts under the configuration in force; the name it carries is
+the injective code of ITS octets -/
+theorem sessionWire_dec_update_iff (k : Upd.Cfg) (f : Bytes) (n : Nat) :
+    sessionWire.dec k f = .ok (.msgUpdate n) ↔
+      (19 ≤ f.length ∧ f.take 16 = Open.marker ∧ (f.getD 18 0).toNat = 2 ∧ ∃ u, Upd.parseUpdate k f = .ok u) ∧
+      n = pduId f := by
+  constructor
+  · intro h
+    have ht := sessionWire_dec_type h
+    simp only [sessionWire] at h
+    cases hm : msgFromOctets k f with
+    | panic => simp [hm] at h
+    | err => simp [hm] at h
+    | ok m =>
+      obtain ⟨_, _, _, hu, _⟩ := msgFromOctets_type hm
+      simp only [hm] at h
+      cases m with
+      | update u =>
+        simp [toInput] at h
+        exact ⟨⟨ht.1, ht.2.1, ht.2.2, u, hu u rfl⟩, h.symm⟩
+      | keepalive x => simp [toInput] at h
+      | routeRefresh x => simp [toInput] at h
+      | «open» o =>
+        simp only [toInput] at h
+        split at h <;> try (simp at h; done)
+        split at h <;> try (simp at h; done)
+        split at h <;> simp at h
+      | notification x =>
+        simp only [toInput] at h
+        split at h <;> simp at h
+  · rintro ⟨⟨h19, hmk, ht, u, hu⟩, rfl⟩
+    obtain ⟨len, r, he⟩ := (headerParse_spec f).1 ⟨h19, hmk⟩
+    simp only [sessionWire, msgFromOctets, he, ht, hu, toInput]
+
+/-- `pduId` is injective: the name of an UPDATE identifies its octets -/
+theorem pduId_injective (a b : Bytes) (h : pduId a = pduId b) : a = b := by
+  have key : ∀ l : Bytes, pduId l = l.reverse.foldr (fun x acc => acc * 256 + x.toNat) 1 := by
+    intro l; simp [pduId, List.foldr_reverse]
+  have pos : ∀ l : Bytes, 1 ≤ l.foldr (fun x acc => acc * 256 + x.toNat) 1 := by
+    intro l; induction l with
+    | nil => simp
+    | cons x l ih => simp only [List.foldr_cons]; omega
+  have inj : ∀ l₁ l₂ : Bytes, l₁.foldr (fun x acc => acc * 256 + x.toNat) 1 =
+      l₂.foldr (fun x acc => acc * 256 + x.toNat) 1 → l₁ = l₂ := by
+    intro l₁
+    induction l₁ with
+    | nil =>
+      intro l₂ h
+      cases l₂ with
+      | nil => rfl
+      | cons y l₂ => simp only [List.foldr_cons, List.foldr_nil] at h; have := pos l₂; omega
+    | cons x l₁ ih =>
+      intro l₂ h
+      cases l₂ with
+      | nil => simp only [List.foldr_cons, List.foldr_nil] at h; have := pos l₁; omega
+      | cons y l₂ =>
+        simp only [List.foldr_cons] at h
+        have hx := x.toNat_lt; have hy := y.toNat_lt
+        have h1 : x.toNat = y.toNat := by omega
+        have h2 : l₁.foldr (fun x acc => acc * 256 + x.toNat) 1 = l₂.foldr (fun x acc => acc * 256 + x.toNat) 1 := by omega
+        rw [ih l₂ h2, UInt8.toNat_inj.mp h1]
+  rw [key, key] at h
+  exact List.reverse_inj.mp (inj _ _ h)
+
+/-- a well-formed ROUTE-REFRESH (RFC 2918: 23 octets, any AFI / subtype / SAFI) is `.msgRouteRefresh` for the
+concrete wire, under every configuration -/
+theorem sessionWire_dec_rr (k : Upd.Cfg) (x : Notif.RouteRefresh) (ha : x.afi < 65536) (hs : x.safi < 256)
+    (ht : x.subtype < 256) : sessionWire.dec k (Notif.rrEncode x) = .ok .msgRouteRefresh := by
+  have hd := Rc.Thm.C03.rr_decode_encode x ha hs ht
+  have hp : Open.headerParse (Notif.rrEncode x) =
+      some (23, 5, be16 x.afi ++ [UInt8.ofNat x.subtype, UInt8.ofNat x.safi]) := by
+    have := Open.headerParse_header 23 5 (be16 x.afi ++ [UInt8.ofNat x.subtype, UInt8.ofNat x.safi]) (by decide)
+    simpa [Notif.rrEncode, List.append_assoc] using this
+  simp only [sessionWire, msgFromOctets, hp, show (5 : UInt8).toNat = 5 from rfl, hd, toInput]
 
 end Rc.Session
